@@ -53,7 +53,9 @@ def cases(draw, max_n=40):
         t += step if not fill else draw(st.sampled_from((step, step, step, 4 * step, 9 * step)))
     preload = min(n, draw(st.sampled_from((0, 0, 1, n // 2, n))))
     lifespan = draw(st.sampled_from((None, None, None, 5 * step, 12 * step)))
-    return {"members": members, "stream": stream, "fill": fill, "lifespan": lifespan, "preload": preload, "chunks": draw(gs.chunking(n - preload))}
+    # maintenance between the appends and the questions: the accessors must agree in every reachable state
+    maint = draw(st.sampled_from((None, None, "purge+calculate_index+calculate", "recalculate", "calculate_index")))
+    return {"members": members, "stream": stream, "fill": fill, "lifespan": lifespan, "maintenance": maint, "preload": preload, "chunks": draw(gs.chunking(n - preload))}
 
 
 def run_case(case) -> Result:
@@ -81,6 +83,18 @@ def run_case(case) -> Result:
                 ind.reading_count()
                 hx.reading_as_list(ind.name)
                 hx.reading(ind.name)
+        maint = case.get("maintenance")
+        if maint and inds and hx.candles():
+            victim = inds[len(rows) % len(inds)]
+            if maint == "purge+calculate_index+calculate" and victim.candles:
+                hx.purge(victim.name)
+                hx.calculate_index(victim.name, -1)
+                hx.calculate()
+            elif maint == "recalculate":
+                hx.recalculate(victim.name)
+            elif maint == "calculate_index" and victim.candles:
+                hx.calculate_index(victim.name, -1)
+            labels.append("after_maintenance")
     except Exception as exc:
         return Result([], False, ["raises"])  # totality / Hexital construction are C09 / C08
     nontrivial = False
@@ -100,6 +114,14 @@ def run_case(case) -> Result:
         sample = next((c.indicators.get(ind.name) for c in reversed(cs) if isinstance(c.indicators.get(ind.name), dict)), None)
         names = [ind.name] + ([f"{ind.name}.{f}" for f in sample] if sample else [])
         try:
+            other = ["close", "volume"] + sorted({k for c in cs for k in c.sub_indicators})[:4]
+            for oname in other:
+                want_o = [reading_by_candle(c, oname) for c in cs]
+                if not same(ind.as_list(oname), want_o):
+                    bad("accessors-disagree", "Indicator.as_list(other name)", f"{ind.name}.as_list({oname!r}) = {ind.as_list(oname)[-3:]} but the candles hold {want_o[-3:]}", subject)
+                for i in (0, len(cs) - 1):
+                    if cs and not same(ind.reading(oname, index=i), want_o[i]):
+                        bad("accessors-disagree", "Indicator.reading(other name)", f"{ind.name}.reading({oname!r}, {i}) = {ind.reading(oname, index=i)!r} but the candle holds {want_o[i]!r}", subject)
             for name in names:
                 plain = name == ind.name
                 direct = [reading_by_candle(c, name) for c in cs]
